@@ -275,6 +275,9 @@ func (c *Cache) InjectDevices(ociSpec *oci.Spec, devices ...string) ([]string, e
 // highestPrioritySpecDir returns the Spec directory with highest priority
 // and its priority.
 func (c *Cache) highestPrioritySpecDir() (string, int) {
+	c.Lock()
+	defer c.Unlock()
+
 	if len(c.specDirs) == 0 {
 		return "", -1
 	}
@@ -482,13 +485,13 @@ func (c *Cache) GetSpecDirectories() []string {
 
 // GetSpecDirErrors returns any errors related to configured Spec directories.
 func (c *Cache) GetSpecDirErrors() map[string]error {
-	if c.dirErrors == nil {
-		return nil
-	}
-
 	c.Lock()
 	defer c.Unlock()
 	verifPoint("op", c, "GetSpecDirErrors")
+
+	if c.dirErrors == nil {
+		return nil
+	}
 
 	errors := make(map[string]error)
 	for dir, err := range c.dirErrors {
